@@ -208,4 +208,540 @@ Proof.
     cbn [rev]. rewrite <- app_assoc. cbn [app]. f_equal. f_equal; [f_equal; f_equal; lia|destruct ps; reflexivity].
 Qed.
 
+Lemma pex_full (ex : option extra) (n : nat) : (0 < n)%nat -> length (ex_values ex) = (ex_dims ex * n)%nat ->
+  pex ex n = coords_part ex.
+Proof.
+  intros Hn Hl. unfold pex, coords_part. destruct ex as [e|]; cbn [ex_dims ex_values] in *; [|reflexivity].
+  destruct (dims e) as [|d] eqn:Ed; [reflexivity|]. destruct n as [|n]; [lia|].
+  rewrite <- Hl, firstn_all. reflexivity.
+Qed.
+
+Lemma series_elems (ps : list fpt) (ex : option extra) (pidx : nat) :
+  elems (series_jv fmt ps ex pidx) = map (fun pi => point_jv fmt (fst pi) ex (snd pi)) (combine ps (seq pidx (length ps))).
+Proof. reflexivity. Qed.
+
+(* LineString / MultiLineString coordinates *)
+Lemma parse_line_back (top : bool) (ps : list fpt) (ex : option extra) :
+  (ps <> []) -> Forall fin_pt ps -> ex_form (length ps) ex -> vals_fin ex ->
+  parse_line_coords top (Some (series_jv fmt ps ex 0)) = ROk (ps, coords_part ex).
+Proof.
+  intros Hne Hps Hex Hf. unfold parse_line_coords. change (is_array (series_jv fmt ps ex 0)) with true. cbn [negb]. rewrite andb_false_r.
+  assert (Hd : (ex_dims ex <= 2)%nat /\ length (ex_values ex) = (ex_dims ex * length ps)%nat).
+  { destruct ex as [e|]; cbn [ex_form ex_dims ex_values] in *; [destruct Hex as (A & B & _); split; assumption|split; [lia|reflexivity]]. }
+  destruct Hd as [Hd Hl].
+  assert (Hp0 : pex ex 0 = None) by (unfold pex; destruct (ex_dims ex); reflexivity).
+  replace (@ROk (list fpt * option extra * bool) ([], None, true)) with (@ROk (list fpt * option extra * bool) ([], pex ex 0, true))
+    by (rewrite Hp0; reflexivity).
+  rewrite series_elems.
+  rewrite (series_fold_back MIXED_OK true ex (length ps) Hd Hl Hf ps 0 [] true Hps); [|lia|reflexivity].
+  rewrite app_nil_r, rev_involutive. cbn [Nat.add]. rewrite pex_full; [reflexivity| |exact Hl].
+  destruct ps; [congruence|cbn [length]; lia].
+Qed.
+
+(* ------------------------------------------------------------------ *)
+(* rings                                                                *)
+
+Definition npts (rings : list (list fpt)) : nat := fold_right (fun r acc => (length r + acc)%nat) 0%nat rings.
+
+Lemma rings_fold_back (ex : option extra) (n : nat) :
+  (ex_dims ex <= 2)%nat -> length (ex_values ex) = (ex_dims ex * n)%nat -> vals_fin ex ->
+  forall (rings : list (list fpt)) (pidx : nat) (racc : list (list fpt)) (first : bool),
+  Forall (Forall fin_pt) rings -> Forall (fun r => r <> []) rings -> (pidx + npts rings <= n)%nat ->
+  (pidx = 0%nat -> first = true) ->
+  fold_left ring_step (rings_jv fmt rings ex pidx) (ROk (racc, pex ex pidx, first))
+  = ROk (rev rings ++ racc, pex ex (pidx + npts rings), match rings with [] => first | _ => false end).
+Proof.
+  intros Hd Hl Hf. induction rings as [|r rings IH]; intros pidx racc first Hfin Hne Hn H0.
+  - cbn. rewrite Nat.add_0_r. reflexivity.
+  - inversion Hfin as [|? ? Hr Hfin']; subst. inversion Hne as [|? ? Hr0 Hne']; subst.
+    cbn [rings_jv fold_left npts fold_right] in *. fold (npts rings) in *.
+    unfold ring_step at 2. change (is_array (series_jv fmt r ex pidx)) with true. cbn [negb]. rewrite series_elems.
+    rewrite (series_fold_back MIXED_OK false ex n Hd Hl Hf r pidx [] first Hr); [|lia|exact H0].
+    rewrite app_nil_r, rev_involutive.
+    rewrite (IH (pidx + length r)%nat (r :: racc) false Hfin' Hne'); [|lia|destruct r; [congruence|cbn [length]; lia]].
+    cbn [rev]. rewrite <- app_assoc. cbn [app]. rewrite Nat.add_assoc. destruct rings; reflexivity.
+Qed.
+
+Lemma parse_poly_back (top : bool) (rings : list (list fpt)) (ex : option extra) :
+  rings <> [] -> Forall (fun r => r <> []) rings -> Forall (Forall fin_pt) rings -> ex_form (npts rings) ex -> vals_fin ex ->
+  parse_poly_coords top (Some (JArr (rings_jv fmt rings ex 0))) = ROk (rings, coords_part ex).
+Proof.
+  intros Hne Hr Hfin Hex Hf. unfold parse_poly_coords. cbn [is_array negb]. rewrite andb_false_r.
+  change (elems (JArr ?l)) with l.
+  assert (Hd : (ex_dims ex <= 2)%nat /\ length (ex_values ex) = (ex_dims ex * npts rings)%nat).
+  { destruct ex as [e|]; cbn [ex_form ex_dims ex_values] in *; [destruct Hex as (A & B & _); split; assumption|split; [lia|reflexivity]]. }
+  destruct Hd as [Hd Hl].
+  assert (Hp0 : pex ex 0 = None) by (unfold pex; destruct (ex_dims ex); reflexivity).
+  replace (@ROk (list (list fpt) * option extra * bool) ([], None, true))
+    with (@ROk (list (list fpt) * option extra * bool) ([], pex ex 0, true)) by (rewrite Hp0; reflexivity).
+  rewrite (rings_fold_back ex (npts rings) Hd Hl Hf rings 0 [] true Hfin Hr); [|lia|reflexivity].
+  rewrite app_nil_r, rev_involutive. cbn [Nat.add]. rewrite pex_full; [reflexivity| |exact Hl].
+  destruct rings as [|r rings]; [congruence|]. inversion Hr; subst. destruct r; [congruence|]. cbn. lia.
+Qed.
+
+(* ------------------------------------------------------------------ *)
+(* the member scan of a written object                                  *)
+
+Lemma scan_foreign (ms : list (jkey * jv)) : forall ks, forallb foreign_key ms = true ->
+  scan_from ks ms = {| k_type := k_type ks; k_coords := k_coords ks; k_geoms := k_geoms ks; k_geom := k_geom ks;
+                       k_feats := k_feats ks; k_foreign := k_foreign ks ++ ms |}.
+Proof.
+  induction ms as [|kv ms IH]; intros ks H.
+  - cbn. rewrite app_nil_r. destruct ks; reflexivity.
+  - cbn [forallb] in H. apply andb_true_iff in H. destruct H as [Hk Hms]. unfold scan_from in *. cbn [fold_left].
+    rewrite (IH _ Hms). unfold foreign_key in Hk. cbv zeta in Hk. apply negb_true_iff in Hk.
+    rewrite !orb_false_iff in Hk. destruct Hk as [[[[H1 H2] H3] H4] H5]. unfold scan_step. cbv zeta.
+    rewrite H1, H2, H3, H4, H5. cbn [k_type k_coords k_geoms k_geom k_feats k_foreign].
+    rewrite <- app_assoc. reflexivity.
+Qed.
+
+Definition ks0 : pkeys := {| k_type := None; k_coords := None; k_geoms := None; k_geom := None; k_feats := None; k_foreign := [] |}.
+
+Lemma scan_written (K : list Z) (tv cv : jv) (ms : list (jkey * jv)) : forallb foreign_key ms = true ->
+  scan_keys ((key s_type, tv) :: (key K, cv) :: ms) = scan_from (scan_step (scan_step ks0 (key s_type, tv)) (key K, cv)) ms.
+Proof. reflexivity. Qed.
+
+Lemma scan_coords_obj tv cv ms : forallb foreign_key ms = true ->
+  scan_keys ((key s_type, tv) :: (key s_coordinates, cv) :: ms) =
+  {| k_type := Some tv; k_coords := Some cv; k_geoms := None; k_geom := None; k_feats := None; k_foreign := ms |}.
+Proof. intros H. rewrite (scan_written _ _ _ _ H), (scan_foreign ms _ H). reflexivity. Qed.
+Lemma scan_geometry_obj tv cv ms : forallb foreign_key ms = true ->
+  scan_keys ((key s_type, tv) :: (key s_geometry, cv) :: ms) =
+  {| k_type := Some tv; k_coords := None; k_geoms := None; k_geom := Some cv; k_feats := None; k_foreign := ms |}.
+Proof. intros H. rewrite (scan_written _ _ _ _ H), (scan_foreign ms _ H). reflexivity. Qed.
+Lemma scan_geometries_obj tv cv ms : forallb foreign_key ms = true ->
+  scan_keys ((key s_type, tv) :: (key s_geometries, cv) :: ms) =
+  {| k_type := Some tv; k_coords := None; k_geoms := Some cv; k_geom := None; k_feats := None; k_foreign := ms |}.
+Proof. intros H. rewrite (scan_written _ _ _ _ H), (scan_foreign ms _ H). reflexivity. Qed.
+Lemma scan_features_obj tv cv ms : forallb foreign_key ms = true ->
+  scan_keys ((key s_type, tv) :: (key s_features, cv) :: ms) =
+  {| k_type := Some tv; k_coords := None; k_geoms := None; k_geom := None; k_feats := Some cv; k_foreign := ms |}.
+Proof. intros H. rewrite (scan_written _ _ _ _ H), (scan_foreign ms _ H). reflexivity. Qed.
+
+(* ------------------------------------------------------------------ *)
+(* first_member / get2 and the default "properties" member              *)
+
+Lemma first_member_app_none (name : list Z) (ms l : list (jkey * jv)) :
+  first_member name ms = None -> first_member name (ms ++ l) = first_member name l.
+Proof.
+  unfold first_member. induction ms as [|kv ms IH]; [reflexivity|]. cbn [find app].
+  match goal with |- context [if ?c then _ else _] => destruct c end; [intros H; discriminate H|]. exact IH.
+Qed.
+
+Lemma get2_props_default (b : list Z) (ms : list (jkey * jv)) :
+  get2 s_properties b (ms ++ match first_member s_properties ms with Some _ => [] | None => [props_member] end)
+  = get2 s_properties b ms.
+Proof.
+  destruct (first_member s_properties ms) as [v|] eqn:E; [rewrite app_nil_r; reflexivity|].
+  unfold get2. rewrite (first_member_app_none _ _ _ E), E. reflexivity.
+Qed.
+
+Lemma circle_of_get2 (o : popts) (one : Z) (p : fpt) (m1 m2 : list (jkey * jv)) :
+  (forall b, get2 s_properties b m1 = get2 s_properties b m2) -> circle_of o one p m1 = circle_of o one p m2.
+Proof. intros H. unfold circle_of. rewrite !H. reflexivity. Qed.
+
+Lemma extra_members_true (ex : option extra) :
+  extra_members ex true = ex_members ex ++ match first_member s_properties (ex_members ex) with Some _ => [] | None => [props_member] end.
+Proof. destruct ex as [[d v [ms|]]|]; reflexivity. Qed.
+
+Lemma circle_of_default (o : popts) (one : Z) (p : fpt) (ex : option extra) :
+  circle_of o one p (extra_members ex true) = circle_of o one p (ex_members ex).
+Proof. apply circle_of_get2. intros b. rewrite extra_members_true. apply get2_props_default. Qed.
+
+(* ------------------------------------------------------------------ *)
+(* objects in parsed form                                               *)
+
+Definition check_ok (o : popts) (g : gobj) : Prop := require_valid o && negb (g_valid o g) = false.
+
+Definition no_members (ex : option extra) : Prop := match ex with Some e => members e = None | None => True end.
+Definition members_only (ex : option extra) : Prop := ex_form 0 ex /\ ex_dims ex = 0%nat.
+
+Definition line_form (ps : list fpt) (ex : option extra) : Prop :=
+  (2 <= length ps)%nat /\ Forall fin_pt ps /\ ex_form (length ps) ex /\ vals_fin ex.
+Definition poly_form (rings : list (list fpt)) (ex : option extra) : Prop :=
+  rings <> [] /\ forallb ring_ok rings = true /\ Forall (Forall fin_pt) rings /\ ex_form (npts rings) ex /\ vals_fin ex.
+Definition rect_form (mn mx : fpt) : Prop :=
+  fin_pt mn /\ fin_pt mx /\ fnum_ltb (fst mn) (fst mx) = true /\ fnum_ltb (snd mn) (snd mx) = true.
+
+(* a child of a Multi* collection *)
+Definition child_pf (k : Z) (c : gobj) : Prop :=
+  match c with
+  | JPoint p ex => k = 0 /\ ex_form 1 ex /\ no_members ex
+  | JLine ps ex => k = 1 /\ line_form ps ex /\ no_members ex
+  | JPoly rings ex => k = 2 /\ poly_form rings ex /\ no_members ex
+  | _ => False
+  end.
+
+Definition not_circle (o : popts) (one : Z) (b : gobj) (ms : list (jkey * jv)) : Prop :=
+  match b with
+  | JPoint p _ | JSimple p => circle_of o one p ms = None
+  | _ => True
+  end.
+
+Fixpoint pf (o : popts) (one : Z) (g : gobj) : Prop :=
+  match g with
+  | JPoint p ex => ex_form 1 ex /\ (ex = None -> allow_simple o = false) /\ check_ok o g
+  | JSimple p => allow_simple o = true /\ check_ok o g
+  | JRect mn mx => allow_rects o = true /\ rect_form mn mx /\ check_ok o g
+  | JLine ps ex => line_form ps ex /\ check_ok o g
+  | JPoly rings ex =>
+      poly_form rings ex /\ (ex = None -> forall ext, rings = [ext] -> allow_rects o && perfect_rect ext = false) /\ check_ok o g
+  | JFeature b ex => pf o one b /\ members_only ex /\ not_circle o one b (ex_members ex)
+  | JColl k cs ex =>
+      0 <= k <= 4 /\ members_only ex /\ (k < 3 -> check_ok o g) /\
+      (fix all (l : list gobj) : Prop :=
+         match l with [] => True | c :: r => (if k <? 3 then child_pf k c else pf o one c) /\ all r end) cs
+  | JCircle c m => disable_circle o = false /\ fin m /\ check_ok o g
+  end.
+
+(* what Parse returns for the written tree: the object itself, a Feature having gained the default member *)
+Fixpoint norm (g : gobj) : gobj :=
+  match g with
+  | JFeature b ex => JFeature (norm b) (Some {| dims := 0; values := []; members := Some (extra_members ex true) |})
+  | JColl k cs ex => JColl k (if k <? 3 then cs else map norm cs) ex
+  | _ => g
+  end.
+
+Fixpoint gdepth (g : gobj) : nat :=
+  match g with
+  | JFeature b _ => S (gdepth b)
+  | JColl _ cs _ => S (fold_right (fun c acc => Nat.max (gdepth c) acc) 0%nat cs)
+  | JCircle _ _ => 2%nat
+  | _ => 1%nat
+  end.
+
+Lemma members_only_back (ex : option extra) : members_only ex -> with_members None (ex_members ex) = ex.
+Proof.
+  intros [Hf Hd]. rewrite <- (with_members_back 0 ex Hf) at 2. f_equal.
+  destruct ex as [e|]; [|reflexivity]. cbn [ex_dims coords_part] in *. rewrite Hd. reflexivity.
+Qed.
+
+Lemma members_only_foreign (ex : option extra) : members_only ex -> forallb foreign_key (ex_members ex) = true.
+Proof.
+  intros [Hf _]. destruct ex as [[d v [ms|]]|]; cbn [ex_form ex_members members] in *; try reflexivity.
+  destruct Hf as (_ & _ & _ & H). exact H.
+Qed.
+
+Lemma ex_form_foreign (n : nat) (ex : option extra) : ex_form n ex -> forallb foreign_key (ex_members ex) = true.
+Proof.
+  intros Hf. destruct ex as [[d v [ms|]]|]; cbn [ex_form ex_members members] in *; try reflexivity.
+  destruct Hf as (_ & _ & _ & H). exact H.
+Qed.
+
+Lemma coords_part_id (n : nat) (ex : option extra) : ex_form n ex -> no_members ex -> coords_part ex = ex.
+Proof.
+  destruct ex as [[d v ms]|]; [|reflexivity]. cbn [ex_form no_members coords_part dims values members].
+  intros (_ & _ & Hm) ->. destruct d; [congruence|reflexivity].
+Qed.
+
+Lemma map_until_map {A B C} (f : B -> res C) (j : A -> B) (g : A -> C) (l : list A) :
+  Forall (fun a => f (j a) = ROk (g a)) l -> map_until f (map j l) = ROk (map g l).
+Proof.
+  induction 1 as [|a l Ha Hl IH]; [reflexivity|]. cbn [map map_until]. rewrite Ha, IH. reflexivity.
+Qed.
+
+(* evaluate comparisons between literal names *)
+Ltac eval_names :=
+  repeat match goal with
+  | |- context [bytes_eqb ?a ?b] =>
+      let v := eval vm_compute in (bytes_eqb a b) in
+      match v with
+      | true => change (bytes_eqb a b) with true
+      | false => change (bytes_eqb a b) with false
+      end
+  end; cbv beta iota.
+
+Lemma rt_point (o : popts) (one : Z) (p : fpt) (ex : option extra) (f : nat) :
+  pf o one (JPoint p ex) -> parse (S f) o one (emit_jv fmt (JPoint p ex)) = POk (JPoint p ex).
+Proof.
+  intros (Hex & Hs & Hc). cbn [emit_jv parse]. rewrite extra_members_false.
+  rewrite (scan_coords_obj _ _ _ (ex_form_foreign 1 ex Hex)). cbn [k_type k_coords k_foreign str_jv].
+  eval_names. rewrite (parse_point_back true p ex Hex), (with_members_back 1 ex Hex).
+  unfold check_ok in Hc. destruct ex as [e|].
+  - rewrite Hc. reflexivity.
+  - rewrite (Hs eq_refl). rewrite Hc. reflexivity.
+Qed.
+
+Lemma rt_simple (o : popts) (one : Z) (p : fpt) (f : nat) :
+  pf o one (JSimple p) -> parse (S f) o one (emit_jv fmt (JSimple p)) = POk (JSimple p).
+Proof.
+  intros (Hs & Hc). cbn [emit_jv parse].
+  rewrite (scan_coords_obj _ _ [] eq_refl). cbn [k_type k_coords k_foreign str_jv].
+  eval_names. rewrite (parse_point_back true p None I). cbn [coords_part with_members].
+  rewrite Hs. unfold check_ok in Hc. rewrite Hc. reflexivity.
+Qed.
+
+Lemma fnum_eqb_refl (x : fnum) : fin x -> fnum_eqb x x = true.
+Proof. destruct x; cbn; try contradiction. intros _. apply Z.eqb_refl. Qed.
+
+Lemma rt_line (o : popts) (one : Z) (ps : list fpt) (ex : option extra) (f : nat) :
+  pf o one (JLine ps ex) -> parse (S f) o one (emit_jv fmt (JLine ps ex)) = POk (JLine ps ex).
+Proof.
+  intros ((Hn & Hps & Hex & Hv) & Hc). cbn [emit_jv parse]. rewrite extra_members_false.
+  rewrite (scan_coords_obj _ _ _ (ex_form_foreign _ ex Hex)). cbn [k_type k_coords k_foreign str_jv].
+  eval_names. rewrite (parse_line_back true ps ex); [|destruct ps; [cbn in Hn; lia|congruence]|exact Hps|exact Hex|exact Hv].
+  assert (Hlt : (length ps <? 2)%nat = false) by (apply Nat.ltb_ge; exact Hn). rewrite Hlt.
+  rewrite (with_members_back _ ex Hex). unfold check_ok in Hc. rewrite Hc. reflexivity.
+Qed.
+
+Lemma ring_ok_nonempty (rings : list (list fpt)) : forallb ring_ok rings = true -> Forall (fun r => r <> []) rings.
+Proof.
+  intros H. apply Forall_forall. intros r Hr. rewrite forallb_forall in H. specialize (H r Hr).
+  unfold ring_ok in H. destruct r; [cbn in H; discriminate|congruence].
+Qed.
+
+Lemma rings_not_empty (rings : list (list fpt)) : rings <> [] -> forallb ring_ok rings = true -> rings_empty rings = false.
+Proof.
+  intros Hne H. destruct rings as [|e rest]; [congruence|]. cbn [forallb] in H. apply andb_true_iff in H. destruct H as [He _].
+  unfold ring_ok in He. apply andb_true_iff in He. destruct He as [He _]. cbn [rings_empty].
+  apply Nat.ltb_ge. apply Nat.leb_le in He. lia.
+Qed.
+
+Lemma rt_poly (o : popts) (one : Z) (rings : list (list fpt)) (ex : option extra) (f : nat) :
+  pf o one (JPoly rings ex) -> parse (S f) o one (emit_jv fmt (JPoly rings ex)) = POk (JPoly rings ex).
+Proof.
+  intros ((Hne & Hok & Hfin & Hex & Hv) & Hr & Hc). cbn [emit_jv parse]. rewrite extra_members_false.
+  rewrite (scan_coords_obj _ _ _ (ex_form_foreign _ ex Hex)). cbn [k_type k_coords k_foreign str_jv].
+  eval_names. rewrite (rings_not_empty rings Hne Hok).
+  rewrite (parse_poly_back true rings ex Hne (ring_ok_nonempty rings Hok) Hfin Hex Hv).
+  destruct rings as [|ext holes]; [congruence|]. rewrite Hok. cbn [negb].
+  rewrite (with_members_back _ ex Hex). unfold check_ok in Hc.
+  destruct ex as [e|].
+  - rewrite Hc. reflexivity.
+  - destruct holes as [|h holes]; [|rewrite Hc; reflexivity].
+    rewrite (Hr eq_refl ext eq_refl). rewrite Hc. reflexivity.
+Qed.
+
+Lemma rt_rect (o : popts) (one : Z) (mn mx : fpt) (f : nat) :
+  pf o one (JRect mn mx) -> parse (S f) o one (emit_jv fmt (JRect mn mx)) = POk (JRect mn mx).
+Proof.
+  intros (Ha & ((Hmn1 & Hmn2) & (Hmx1 & Hmx2) & Hx & Hy) & Hc). cbn [emit_jv parse].
+  rewrite (scan_coords_obj _ _ [] eq_refl). cbn [k_type k_coords k_foreign str_jv]. eval_names.
+  change (JArr [series_jv fmt (fpt_rect_points mn mx) None 0]) with (JArr (rings_jv fmt [fpt_rect_points mn mx] None 0)).
+  destruct mn as [a b], mx as [c d]. cbn [fst snd] in *.
+  destruct a as [a| |], b as [b| |], c as [c| |], d as [d| |]; cbn [fin] in *; try contradiction.
+  rewrite (parse_poly_back true [fpt_rect_points (FV a, FV b) (FV c, FV d)] None).
+  2:{ congruence. }
+  2:{ repeat constructor. unfold fpt_rect_points. congruence. }
+  2:{ repeat constructor. }
+  2:{ exact I. }
+  2:{ constructor. }
+  cbn [fnum_ltb] in Hx, Hy.
+  assert (Hrok : forallb ring_ok [fpt_rect_points (FV a, FV b) (FV c, FV d)] = true).
+  { unfold ring_ok, fpt_rect_points, fpt_eqb. cbn [forallb length Nat.leb last fst snd fnum_eqb]. rewrite !Z.eqb_refl. reflexivity. }
+  rewrite Hrok. cbn [negb coords_part with_members]. rewrite Ha.
+  assert (Hp : perfect_rect (fpt_rect_points (FV a, FV b) (FV c, FV d)) = true).
+  { unfold perfect_rect, fpt_rect_points. cbn [fst snd fnum_eqb fnum_ltb]. rewrite !Z.eqb_refl, Hx, Hy. reflexivity. }
+  rewrite Hp. cbn [andb fpt_rect_points nth fst snd]. unfold check_ok in Hc. rewrite Hc. reflexivity.
+Qed.
+
+Lemma first_member_hit (k : list Z) (v : jv) (ms : list (jkey * jv)) : first_member k ((key k, v) :: ms) = Some v.
+Proof. unfold first_member. cbn [find key fst snd]. rewrite bytes_eqb_refl. reflexivity. Qed.
+
+Lemma rt_circle (o : popts) (one : Z) (c : fpt) (m : fnum) (f : nat) :
+  pf o one (JCircle c m) -> parse (S (S f)) o one (emit_jv fmt (JCircle c m)) = POk (JCircle c m).
+Proof.
+  intros (Hd & Hm & Hc). destruct m as [k| |]; cbn [fin] in Hm; try contradiction.
+  cbn [emit_jv]. set (pm := (key s_properties, JObj [(key s_type, str_jv s_Circle); (key s_radius, num_jv fmt (FV k)); (key s_radius_units, str_jv s_m)])).
+  set (geom := JObj [(key s_type, str_jv s_Point); (key s_coordinates, JArr [num_jv fmt (fst c); num_jv fmt (snd c)])]).
+  assert (Hg : parse (S f) o one geom = POk (if allow_simple o then JSimple c else JPoint c None)).
+  { subst geom. cbn [parse]. rewrite (scan_coords_obj _ _ [] eq_refl). cbn [k_type k_coords k_foreign str_jv]. eval_names.
+    change (JArr [num_jv fmt (fst c); num_jv fmt (snd c)]) with (point_jv fmt c None 0).
+    rewrite (parse_point_back true c None I). cbn [coords_part with_members].
+    unfold check_ok in Hc. cbn [g_valid] in *. destruct (allow_simple o); cbn [g_valid]; rewrite Hc; reflexivity. }
+  set (f1 := S f) in *. clearbody f1.
+  cbn [parse]. rewrite (scan_geometry_obj _ _ [pm] eq_refl). cbn [k_type k_geom k_foreign str_jv]. eval_names.
+  rewrite Hg.
+  assert (Hcirc : circle_of o one c [pm] = Some (POk (JCircle c (FV k)))).
+  { unfold circle_of. rewrite Hd. subst pm. unfold get2. rewrite !first_member_hit.
+    cbn [first_member find key fst snd str_jv str_of num_jv]. eval_names. reflexivity. }
+  destruct (allow_simple o); unfold CIRCLE_SIMPLE_OK; rewrite Hcirc; reflexivity.
+Qed.
+
+(* ------------------------------------------------------------------ *)
+(* children of Multi* collections                                       *)
+
+Lemma child0_back (c : gobj) : child_pf 0 c ->
+  match parse_point_coords false (Some (coords_jv fmt c)) with ROk (p, ex) => ROk (JPoint p ex) | RErr e => RErr e end = ROk c.
+Proof.
+  destruct c as [p ex|p|mn mx|ps ex|rings ex|b ex|k cs ex|cc m]; cbn [child_pf]; try contradiction;
+    intros (Hk & Hf & Hm); try discriminate Hk.
+  cbn [coords_jv]. rewrite (parse_point_back false p ex Hf), (coords_part_id 1 ex Hf Hm). reflexivity.
+Qed.
+
+Lemma child1_back (c : gobj) : child_pf 1 c ->
+  match parse_line_coords false (Some (coords_jv fmt c)) with
+  | ROk (ps, ex) => if (length ps <? 2)%nat then RErr E_CoordsInvalid else ROk (JLine ps ex)
+  | RErr e => RErr e end = ROk c.
+Proof.
+  destruct c as [p ex|p|mn mx|ps ex|rings ex|b ex|k cs ex|cc m]; cbn [child_pf]; try contradiction;
+    intros (Hk & Hf & Hm); try discriminate Hk.
+  destruct Hf as (Hn & Hps & Hex & Hv). cbn [coords_jv].
+  rewrite (parse_line_back false ps ex); [|destruct ps; [cbn in Hn; lia|congruence]|exact Hps|exact Hex|exact Hv].
+  assert (Hlt : (length ps <? 2)%nat = false) by (apply Nat.ltb_ge; exact Hn). rewrite Hlt.
+  rewrite (coords_part_id _ ex Hex Hm). reflexivity.
+Qed.
+
+Lemma child2_back (c : gobj) : child_pf 2 c ->
+  match parse_poly_coords false (Some (coords_jv fmt c)) with
+  | ROk (rings, ex) =>
+      match rings with
+      | [] => RErr E_CoordsInvalid
+      | _ => if forallb ring_ok rings then ROk (JPoly rings ex) else RErr E_CoordsInvalid
+      end
+  | RErr e => RErr e end = ROk c.
+Proof.
+  destruct c as [p ex|p|mn mx|ps ex|rings ex|b ex|k cs ex|cc m]; cbn [child_pf]; try contradiction;
+    intros (Hk & Hf & Hm); try discriminate Hk.
+  destruct Hf as (Hne & Hok & Hfin & Hex & Hv). cbn [coords_jv]. rewrite (rings_not_empty rings Hne Hok).
+  rewrite (parse_poly_back false rings ex Hne (ring_ok_nonempty rings Hok) Hfin Hex Hv).
+  destruct rings as [|e r]; [congruence|]. rewrite Hok, (coords_part_id _ ex Hex Hm). reflexivity.
+Qed.
+
+Lemma pf_coll_children (o : popts) (one : Z) (k : Z) (cs : list gobj) (ex : option extra) :
+  pf o one (JColl k cs ex) -> Forall (fun c => if k <? 3 then child_pf k c else pf o one c) cs.
+Proof.
+  cbn [pf]. intros (_ & _ & _ & H). induction cs as [|c cs IH]; [constructor|]. destruct H as [Hc Hr].
+  constructor; [exact Hc|apply IH; exact Hr].
+Qed.
+
+Lemma extra_members_true_ne (ex : option extra) : exists m ms, extra_members ex true = m :: ms.
+Proof.
+  rewrite extra_members_true. destruct (ex_members ex) as [|m ms]; [cbn; eexists; eexists; reflexivity|].
+  cbn [app]. eexists; eexists; reflexivity.
+Qed.
+
+Lemma extra_members_true_foreign (ex : option extra) : members_only ex -> forallb foreign_key (extra_members ex true) = true.
+Proof.
+  intros H. rewrite extra_members_true, forallb_app, (members_only_foreign ex H).
+  destruct (first_member s_properties (ex_members ex)); reflexivity.
+Qed.
+
+Lemma depth_children_le (cs : list gobj) (c : gobj) : In c cs ->
+  (gdepth c <= fold_right (fun c acc => Nat.max (gdepth c) acc) 0%nat cs)%nat.
+Proof.
+  induction cs as [|x cs IH]; [contradiction|]. intros [->|H]; cbn [fold_right]; [lia|]. specialize (IH H). lia.
+Qed.
+
+(* ------------------------------------------------------------------ *)
+(* MAIN                                                                 *)
+
+Theorem parse_emit_fixpoint (o : popts) (one : Z) (g : gobj) :
+  pf o one g -> forall fuel, (gdepth g <= fuel)%nat -> parse fuel o one (emit_jv fmt g) = POk (norm g).
+Proof.
+  induction g as [p ex|p|mn mx|ps ex|rings ex|b ex IHb|k cs ex IHcs|c m] using gobj_ind'; intros Hpf fuel Hfuel;
+    (destruct fuel as [|f]; [cbn [gdepth] in Hfuel; lia|]).
+  - apply rt_point; exact Hpf.
+  - apply rt_simple; exact Hpf.
+  - apply rt_rect; exact Hpf.
+  - apply rt_line; exact Hpf.
+  - apply rt_poly; exact Hpf.
+  - (* Feature *)
+    destruct Hpf as (Hb & Hm & Hnc). cbn [gdepth] in Hfuel.
+    specialize (IHb Hb f ltac:(lia)).
+    pose proof (extra_members_true_foreign ex Hm) as Hfk.
+    cbn [emit_jv norm parse]. rewrite (scan_geometry_obj _ _ _ Hfk). cbn [k_type k_geom k_foreign str_jv]. eval_names.
+    rewrite IHb.
+    assert (Hcirc : match norm b, extra_members ex true with
+                    | JPoint p _, _ :: _ => circle_of o one p (extra_members ex true)
+                    | JSimple p, _ :: _ => if CIRCLE_SIMPLE_OK then circle_of o one p (extra_members ex true) else None
+                    | _, _ => None end = None).
+    { destruct b; cbn [norm not_circle] in *; try reflexivity;
+        destruct (extra_members ex true) eqn:E; try reflexivity; rewrite <- E, circle_of_default; exact Hnc. }
+    rewrite Hcirc. destruct (extra_members_true_ne ex) as (m0 & ms0 & E). rewrite E. reflexivity.
+  - (* collections *)
+    pose proof (pf_coll_children o one k cs ex Hpf) as Hch.
+    destruct Hpf as (Hk & Hm & Hc & _). cbn [gdepth] in Hfuel.
+    pose proof (members_only_foreign ex Hm) as Hfk.
+    assert (Hk5 : k = 0 \/ k = 1 \/ k = 2 \/ k = 3 \/ k = 4) by lia.
+    cbn [emit_jv norm]. rewrite extra_members_false.
+    destruct Hk5 as [-> | [-> | [-> | [-> | ->] ] ] ].
+    + change (coll_type 0) with s_MultiPoint. change (coll_key 0) with s_coordinates. change (0 <? 3) with true in *. cbv iota in *.
+      cbn [parse]. rewrite (scan_coords_obj _ _ _ Hfk). cbn [k_type k_coords k_foreign str_jv is_array negb elems]. eval_names.
+      rewrite (map_until_map _ (coords_jv fmt) (fun c => c) cs).
+      2:{ eapply Forall_impl; [|exact Hch]. intros c Hcc. cbv beta. apply child0_back. exact Hcc. }
+      rewrite map_id, (members_only_back ex Hm). unfold MULTIPOINT_VALID_CHECK.
+      specialize (Hc ltac:(lia)). unfold check_ok in Hc. rewrite Hc. reflexivity.
+    + change (coll_type 1) with s_MultiLineString. change (coll_key 1) with s_coordinates. change (1 <? 3) with true in *. cbv iota in *.
+      cbn [parse]. rewrite (scan_coords_obj _ _ _ Hfk). cbn [k_type k_coords k_foreign str_jv is_array negb elems]. eval_names.
+      rewrite (map_until_map _ (coords_jv fmt) (fun c => c) cs).
+      2:{ eapply Forall_impl; [|exact Hch]. intros c Hcc. cbv beta. apply child1_back. exact Hcc. }
+      rewrite map_id, (members_only_back ex Hm).
+      specialize (Hc ltac:(lia)). unfold check_ok in Hc. rewrite Hc. reflexivity.
+    + change (coll_type 2) with s_MultiPolygon. change (coll_key 2) with s_coordinates. change (2 <? 3) with true in *. cbv iota in *.
+      cbn [parse]. rewrite (scan_coords_obj _ _ _ Hfk). cbn [k_type k_coords k_foreign str_jv is_array negb elems]. eval_names.
+      rewrite (map_until_map _ (coords_jv fmt) (fun c => c) cs).
+      2:{ eapply Forall_impl; [|exact Hch]. intros c Hcc. cbv beta. apply child2_back. exact Hcc. }
+      rewrite map_id, (members_only_back ex Hm).
+      specialize (Hc ltac:(lia)). unfold check_ok in Hc. rewrite Hc. reflexivity.
+    + change (coll_type 3) with s_GeometryCollection. change (coll_key 3) with s_geometries. change (3 <? 3) with false in *. cbv iota in *.
+      cbn [parse]. rewrite (scan_geometries_obj _ _ _ Hfk). cbn [k_type k_geoms k_foreign str_jv is_array negb elems]. eval_names.
+      rewrite (map_until_map _ (emit_jv fmt) norm cs).
+      2:{ rewrite Forall_forall in *. intros c Hin. cbv beta. rewrite (IHcs c Hin (Hch c Hin) f); [reflexivity|].
+          pose proof (depth_children_le cs c Hin). lia. }
+      rewrite (members_only_back ex Hm). reflexivity.
+    + change (coll_type 4) with s_FeatureCollection. change (coll_key 4) with s_features. change (4 <? 3) with false in *. cbv iota in *.
+      cbn [parse]. rewrite (scan_features_obj _ _ _ Hfk). cbn [k_type k_feats k_foreign str_jv is_array negb elems]. eval_names.
+      rewrite (map_until_map _ (emit_jv fmt) norm cs).
+      2:{ rewrite Forall_forall in *. intros c Hin. cbv beta. rewrite (IHcs c Hin (Hch c Hin) f); [reflexivity|].
+          pose proof (depth_children_le cs c Hin). lia. }
+      rewrite (members_only_back ex Hm). reflexivity.
+  - (* Circle *)
+    destruct f as [|f]; [cbn [gdepth] in Hfuel; lia|]. apply rt_circle; exact Hpf.
+Qed.
+
+(* ------------------------------------------------------------------ *)
+(* one step reaches a fixpoint                                          *)
+
+Lemma first_member_app_some (name : list Z) (ms l : list (jkey * jv)) (v : jv) :
+  first_member name ms = Some v -> first_member name (ms ++ l) = Some v.
+Proof.
+  unfold first_member. induction ms as [|kv ms IH]; [discriminate|]. cbn [find app].
+  match goal with |- context [if ?c then _ else _] => destruct c end; [intros H; exact H|]. exact IH.
+Qed.
+
+Lemma extra_members_true_has_props (ex : option extra) : exists v, first_member s_properties (extra_members ex true) = Some v.
+Proof.
+  rewrite extra_members_true. destruct (first_member s_properties (ex_members ex)) as [v|] eqn:E.
+  - exists v. rewrite app_nil_r. exact E.
+  - rewrite (first_member_app_none _ _ _ E). eexists. reflexivity.
+Qed.
+
+Lemma extra_members_norm (ex : option extra) :
+  extra_members (Some {| dims := 0; values := []; members := Some (extra_members ex true) |}) true = extra_members ex true.
+Proof.
+  destruct (extra_members_true_has_props ex) as [v Hv]. cbn [extra_members members]. rewrite Hv. apply app_nil_r.
+Qed.
+
+Theorem norm_same_tree (g : gobj) : emit_jv fmt (norm g) = emit_jv fmt g.
+Proof.
+  induction g as [p ex|p|mn mx|ps ex|rings ex|b ex IHb|k cs ex IHcs|c m] using gobj_ind'; try reflexivity.
+  - cbn [norm emit_jv]. rewrite IHb, extra_members_norm. reflexivity.
+  - cbn [norm emit_jv]. destruct (k <? 3); [reflexivity|]. rewrite map_map. do 5 f_equal.
+    apply map_ext_in. intros c Hc. rewrite Forall_forall in IHcs. apply IHcs. exact Hc.
+Qed.
+
+Theorem norm_idempotent (g : gobj) : norm (norm g) = norm g.
+Proof.
+  induction g as [p ex|p|mn mx|ps ex|rings ex|b ex IHb|k cs ex IHcs|c m] using gobj_ind'; try reflexivity.
+  - cbn [norm]. rewrite IHb, extra_members_norm. reflexivity.
+  - cbn [norm]. destruct (k <? 3); [reflexivity|]. rewrite map_map. f_equal.
+    apply map_ext_in. intros c Hc. rewrite Forall_forall in IHcs. apply IHcs. exact Hc.
+Qed.
+
+(* Parse -> JSON -> Parse: the second Parse returns g' = norm g, g' writes the same tree as g, and Parse of
+   that tree returns g' again *)
+Theorem parse_emit_parse (o : popts) (one : Z) (g : gobj) (fuel : nat) :
+  pf o one g -> (gdepth g <= fuel)%nat ->
+  parse fuel o one (emit_jv fmt g) = POk (norm g) /\
+  emit_jv fmt (norm g) = emit_jv fmt g /\
+  parse fuel o one (emit_jv fmt (norm g)) = POk (norm g).
+Proof.
+  intros Hpf Hf. pose proof (parse_emit_fixpoint o one g Hpf fuel Hf) as H. repeat split; [exact H|apply norm_same_tree|].
+  rewrite norm_same_tree. exact H.
+Qed.
+
 End RT.
+
+Print Assumptions parse_emit_fixpoint.
+Print Assumptions parse_emit_parse.
